@@ -346,6 +346,8 @@ def ready_want(ck, ctx):
             if c[1] == "graph::Build::ordering_ins":
                 be = strip(c[2][0])
                 builds_ok = be[0] == "call" and be[1].endswith("Index<K>>::index") and field_chain(strip(be[2][0]))[1][-1:] == ["builds"] and strip(be[2][1])[0] == "param"
+        whole, bad_ad = C.iter_is_whole(ide)
+        ck.ob("ready-want", "ordering-loop#%d|all-ordering-inputs" % i, whole, "every ordering input is visited (no limiting iterator adapter: %s)" % bad_ad, span=t["loc"], fn=b.nname)
         ck.ob("ready-want", "ordering-loop#%d|iterates-own-build" % i, builds_ok, "the readiness loop iterates ordering_ins of graph.builds[<id param>]", span=t["loc"], fn=b.nname)
         # (1) the loop precedes the state decision: the call dominates set
         ck.ob("ready-want", "ordering-loop#%d|before-set" % i, set_bb is not None and cfg.dominates(cfg.enclosing_loop_header(bb) or bb, set_bb), "all ordering inputs are visited before the state is decided", span=t["loc"], fn=b.nname)
